@@ -335,3 +335,7 @@ mod tests {
         Some(params)
     }
 }
+
+#[cfg(all(test, feature = "pendulum_project_ntpd_rs_verif"))]
+#[path = "../../../../../verif/harness/ntpd/daemon_spawn.rs"]
+mod verif_daemon_spawn;
